@@ -77,6 +77,15 @@ def frac(x):
   return F(float(x)).limit_denominator(1 << 20)
 
 
+def big(n):
+  """An integer as [sign, little-endian limbs base 2^15] (spec/BigNat.tla)."""
+  sign, n, limbs = (n > 0) - (n < 0), abs(n), []
+  while n:
+    limbs.append(n % 32768)
+    n //= 32768
+  return [sign, limbs]
+
+
 def pair(fr):
   return [fr.numerator, fr.denominator]
 
